@@ -5,7 +5,7 @@ from harness import dtwgen
 
 COQ_FILES = ["theories/BandTie.v", "theories/PyWps.v", "theories/PyWpsProofs.v", "gen/Gen_cfill.v", "gen/Gen_cexpand.v",
              "theories/CFill.v", "theories/CExpand.v", "theories/CFillSim.v", "gen/Gen_pywps.v", "theories/PyWpsGen.v",
-             "gen/Gen_cwpsk.v", "gen/Gen_cexpw.v", "theories/CWpsCanon.v", "theories/CWpsKernel.v", "theories/CWpsTie.v", "theories/CWpsCanonEu.v", "theories/CWpsValue.v", "theories/CWpsSpec.v", "theories/CWpsTieEu.v", "theories/CWpsSpecEu.v", "theories/CExpW.v", "theories/CWpsPrune.v", "theories/CWpsSpecB.v", "theories/CWpsSpecBEu.v", "theories/CWpsValueB.v", "gen/Gen_cdist.v", "theories/CDistCanon.v", "theories/CDistTie.v", "theories/CDistProofs.v", "theories/CDistSpec.v", "gen/Gen_cparts.v", "theories/CParts.v", "theories/CWpsFinal.v", "props/C04.v"]
+             "gen/Gen_cwpsk.v", "gen/Gen_cexpw.v", "theories/CWpsCanon.v", "theories/CWpsKernel.v", "theories/CWpsTie.v", "theories/CWpsCanonEu.v", "theories/CWpsValue.v", "theories/CWpsSpec.v", "theories/CWpsTieEu.v", "theories/CWpsSpecEu.v", "theories/CExpW.v", "theories/CWpsPrune.v", "theories/CWpsSpecB.v", "theories/CWpsSpecBEu.v", "theories/CWpsValueB.v", "gen/Gen_cdist.v", "theories/CDistCanon.v", "theories/CDistTie.v", "theories/CDistProofs.v", "theories/CDistSpec.v", "theories/CWpsMarks.v", "gen/Gen_cparts.v", "theories/CParts.v", "theories/CWpsFinal.v", "props/C04.v"]
 THEOREMS = [("DVProps.C04", "C04_cell_lower_bound"), ("DVProps.C04", "C04_cell_attained"),
             ("DVProps.C04", "C04_matrix_shape"), ("DVProps.C04", "C04_out_of_band_inf"),
             ("DVProps.C04", "C04_code_matrix_is_spec"), ("DVProps.C04", "C04_code_matrix_with_bound"),
@@ -17,7 +17,8 @@ THEOREMS = [("DVProps.C04", "C04_cell_lower_bound"), ("DVProps.C04", "C04_cell_a
             ("DVProps.C04", "C04_c_wps_kernel_returns_the_dtw_value"),
             ("DVProps.C04", "C04_c_wps_euclidean_kernel_as_written"),
             ("DVProps.C04", "C04_c_fill_then_expand_as_written"),
-            ("DVProps.C04", "C04_c_wps_value_is_the_distance_kernels_value")]
+            ("DVProps.C04", "C04_c_wps_value_is_the_distance_kernels_value"),
+            ("DVProps.C04", "C04_c_wps_kernel_marks_as_written")]
 TRUSTED_BASE = [
     "Coq 8.16.1 kernel (no native_compute)",
     "tools/translate_py.py (band expressions of dtw.warping_paths regenerated into coq/gen/Gen_dtw.v)",
@@ -39,7 +40,8 @@ TRUSTED_BASE = [
     "return the DTW value of the specification, by the corner read or the two end-of-series scans, with the sqrt pass "
     "when asked (C04_c_wps_kernel_returns_the_dtw_value); the same for the Euclidean twin "
     "(C04_c_wps_euclidean_kernel_as_written); the bounded run of the squared kernel is proved under C03 "
-    "(C03_c_wps[_euclidean]_kernel_with_bound_as_written: cells equal or both above the bound); the -1 marks of the kernels are "
+    "(C03_c_wps[_euclidean]_kernel_with_bound_as_written: cells equal or both above the bound); the -1 marks of the squared kernel without a bound are proved "
+    "(C04_c_wps_kernel_marks_as_written, CWpsMarks.v); the marks under a bound and of the Euclidean twin are "
     "regenerated too and tied by correspondence (site c.wpsk: extracted regenerated kernels vs the compiled ones, "
     "cell by cell); dtw_expand_wps_slice is regenerated whole as well (Gen_cexpw.v), PROVED to copy every kept cell of "
     "the compact array to its place in the block for every slice, all accesses in range (C04_c_fill_then_expand_as_written, "
